@@ -180,6 +180,33 @@ CHECKS = {
         technique='symbolic execution of the real Python code on IEEE-754 proxies, z3 floating-point theory (QF_FPBV) per path',
         engine='E2',
     ),
+    'C05': dict(
+        category='other',
+        text=('Symbolic execution (own explorer E2, z3) of the real parser core on token sequences whose CLASSES are z3 integers over all lexical '
+              'classes: every sequence of length <= 3 (quick) / 4 after "=", and every alternative of every function _TOKEN_SETS (read from the real '
+              'tables) with one symbolic token replaced / inserted / deleted at a symbolic position (two appended in thorough). On every path: the '
+              "library's parser exception, or a tree holding every input token once and in order. Whitespace placement and ,/; choice: z3-enumerated "
+              'variants of six concrete formulas through the real Lexer and translators must give the canonical emitted code.'),
+        design_ref='DESIGN.md section 6 / C05',
+        note=('token values are not symbolic (the parser core never reads them); the lexer is C regex code and is exercised on concrete texts only '
+              '(group 3: the solver merely enumerates the variants, stated); sequences longer than the bound that are not one edit away from a '
+              'function shape are outside the claim.'),
+        technique='symbolic execution of the real parser on symbolic token classes (proxy __class__, z3 branch decisions); solver-enumerated lexer variants',
+        engine='E2',
+    ),
+    'C06': dict(
+        category='other',
+        text=('The real parser core on symbolic token classes (engine E2) with the assertion "only exceptions of the library hierarchy"; every '
+              'accepted path of the single-token-edit exploration of all function shapes gives (z3 model) a representative class sequence which is '
+              'spelled canonically and pushed through the real Parser on a workbook: library exception, or text that compiles, defines ExcelInPython '
+              'with the workbook titles/sizes and a member per cell, and loads the same from the written file and as a class object.'),
+        design_ref='DESIGN.md section 6 / C06',
+        note=('NOT decided by this technique: termination on arbitrary workbooks, every constant type openpyxl can deliver, arbitrary sheet titles - only '
+              'listed concrete probes (with a time limit) run for these and are labelled concrete. Translators see one canonical spelling per accepted class '
+              'sequence. Three shape-level known findings are matched by formula pattern.'),
+        technique='symbolic execution of the real parser on symbolic token classes + concrete translation of solver-chosen representatives',
+        engine='E2',
+    ),
 }
 
 NOT_YET = {}   # filled below for every property without a check
